@@ -154,10 +154,11 @@ Proof.
   - cbn [app]. change [WNode root] with (map WNode [root]). exact (tie_run (S fuel) k [root]).
 Qed.
 
-(* ---------- what the model's theorems say about the translated traversal ---------- *)
 Definition core_init (cs : list nat) (tbl : list (nat * var)) : core := {| k_cache := cs; k_table := tbl; k_roots := []; k_log := [] |}.
 Lemma mk_st_init cs tbl name o : mk_st (core_init cs tbl) [root_node name o] false = init cs tbl name o.
 Proof. reflexivity. Qed.
+
+(* ---------- what the model's theorems say about the translated traversal ---------- *)
 
 (* breadth first: the translated loop records in non-decreasing depth, also when the budget cuts it short *)
 Theorem code_bfs fuel cs tbl name o :
